@@ -14,7 +14,11 @@ REPO_SOURCES = ["muggle/c/sync/spinlock.c", "muggle/c/sync/synclock.c", "muggle/
 HEADER_LINES = 2
 SHRINK = False          # a case is (scenario, schedule); schedules are not line-shrinkable
 CASE_TIMEOUT = 5.0
-RULE = ("scenarios (lock kind x 2..4 threads x 1..3 iterations; call_once 2..4 racers calling 1..3 times each; "
+RULE = ("scenarios (lock kind x 2..4 threads x 1..3 iterations; mutex whose owner locks it again inside the critical section "
+        "(contenders lock / trylock; expected outcome: the scheduler's DEADLOCK with the owner parked in the nested lock); "
+        "call_once 2..4 racers calling 1..3 times each, and 2..3 once-flags in flight with 3..5 threads calling 1..3 flags each "
+        "(slow function bodies, a late caller on every flag, interleaved completions); a REAL-pthread run (no scheduler) of "
+        "muggle_mutex_init/lock/trylock/unlock incl. the owner's nested lock watched by a timed helper thread; "
         "retain/release scripts of 1..8 operations per thread starting from 1..3 and from the boundary values 0x7ffe..0x8001, "
         "0xfffe..0x10001, 2^31-3..2^31-1 (never more retains than fit the C type)) "
         "x seeded random schedules (context-switch density 20/50/80 %, weak-CAS spurious failure 0/30 %) run on the real "
@@ -27,11 +31,14 @@ TRUSTED_BASE = [
     "modelled, not verified: sequentially consistent interleaving of atomic operations plus release/acquire views for the protected plain cell (stand-in for C11; DRF-SC is assumed, not proved); futex = atomic compare-and-block/wake and pthread mutex = exclusive ownership with acquire/release, as interposed by harness/vsched; real weak-memory reorderings cannot be exhibited on x86 under a serialised run",
     "memory orders of the 8 sites are re-extracted from the executed code into coq/gen/Params_C04.v on every run and the theorems' side conditions (mo_sufficient) are discharged against them",
     "the scheduled runs never execute the macro BODIES of muggle/c/base/atomic.h (harness/vsched/vs_hooks.h re-defines every muggle_atomic_* macro); they are tied separately: lib/atomic_tie.py reads from gcc's GIMPLE (-O1, the drivers' include path and config header) of a probe translation unit, for atomic.h alone and with vs_hooks.h force-included, the __atomic builtin of every macro, where each macro parameter lands, how the result is returned, what the hook logs, the values of muggle_memory_order_* / __ATOMIC_* and the sizes of the muggle_atomic_* types (obligation atomic_macros_are_the_hooked_builtins), and harness/drivers/c04_atomics.c (compiled WITHOUT the hooks) runs every macro's value semantics on real threads against Lib/AtomicTie.v aop_sem.  Trusted there: gcc's GIMPLE dump format and the ~150-line reader in lib/atomic_tie.py; only the GCC/Linux branch of atomic.h is seen (the Windows/MSVC half is in no run and no model)",
+    "pthread mutex under the scheduler: harness/vsched replaces pthread_mutex_lock/trylock/unlock by exclusive ownership and, with pthread_mutex_init wrapped as well (this driver), honours the mutex TYPE muggle_mutex_init asks for (default: a lock by the owner never returns = DEADLOCK event; error-checking: EDEADLK / EPERM; recursive: counts); the real pthread return codes and attributes are exercised separately by the unscheduled 'mutexreal' scenario (timing decisions err on the quiet side: 'inconclusive' lines are logged and are never a verdict); obligations mutex_result_mapping_matches_model (every pthread result != 0 is an error, from the C text) and mutex_is_a_default_pthread_mutex (type seen by the wrapped pthread_mutex_init)",
     "leaf translator lib/leaftrans.py behind the slicer lib/props/c04_slice.py (clang 14 JSON AST -> Gallina over Z): the loop body of muggle_ref_cnt_retain / _release as a function of the value read from *ref (obligation ref_loop_body_matches_model); the model's counter has the range of the C type (obligation ref_counter_type_matches_model); `v + 1` at INT_MAX is undefined behaviour in the unchanged code (no refusal there): the counter theorems carry the hypothesis initial value + number of retains <= INT_MAX, the ghost r_ovf records a violation of it",
 ]
 ASSUMPTIONS = ["threads use the lock/once/refcount API as documented (unlock only by the holder)",
                "reference counter: initial value + total number of retains <= INT_MAX (beyond that muggle_ref_cnt_retain computes INT_MAX + 1, undefined behaviour in C)"]
 EVIDENCE_NOTES = [
+    "call_once model: the stamp of once-flag c carries the view of func[c]'s plain cell only (that a release also publishes the storer's view of the other flags' cells is left out: the model promises less visibility than C11); a cell name the model does not know in a trace (e.g. a new static word in call_once.c) is a rejected trace line, i.e. a divergence",
+    "nested mutex scenarios: on the unchanged code every such case ends in the scheduler's DEADLOCK event with thread 0 parked in its nested muggle_mutex_lock; monitor and model both expect exactly that (nested_mutex_lock_by_owner_never_returns); a nested lock that returns (error-checking or recursive mutex) is accepted by the monitor as long as nobody else gets in, but diverges from the model",
     "atomic.h tie: order-only edits of a macro body (e.g. store ignoring its memorder) cannot be exhibited by a run on x86; they break atomic_macros_are_the_hooked_builtins / c04_memory_orders_sufficient and are reported with a MODEL history under the effective orders (model_search); value-level edits (returned old/new value, compare-exchange result or *expected write-back, test_and_set polarity) are reported with a concrete smoke script",
     "refcnt_exactly_one_zero is stated for finished runs of scripts with at least (initial + retains) releases; for other scripts only 'at most one' (refcnt_single_zero) holds, by design of the property",
 ]
@@ -49,15 +56,23 @@ ATOMICS_C = "harness/drivers/c04_atomics.c"      # compiled WITHOUT vs_hooks.h (
 _TIE = {}                                        # result of lib/atomic_tie.probe of this run (for model_search)
 
 
+def build_driver(prop_id=None, out_name="impl_driver"):
+    """the C04 driver; also built by other properties' plugins (C15 runs the reference-counter scenarios)"""
+    # pthread_mutex_init is wrapped too, so that the scheduler's mutex honours the type muggle_mutex_init asks for
+    return V.build_vsched_driver(prop_id or ID, C_DRIVER, REPO_SOURCES, out_name=out_name,
+                                 extra_c=[ATOMICS_C], extra_wraps=["pthread_mutex_init"])
+
+
 def build_impl(ctx):
-    return V.build_vsched_driver(ID, C_DRIVER, REPO_SOURCES, extra_c=[ATOMICS_C])
+    return build_driver()
 
 
 def _discovery_cases():
     return [V.Case("disc-spin", ["lock spin 2 1", "sched rand 1 30 0 0"]),
             V.Case("disc-sync", ["lock sync 2 1", "sched rand 2 30 0 0"]),
             V.Case("disc-once", ["once 3", "sched rand 3 30 0 0"]),
-            V.Case("disc-ref", ["refcnt 2 rd dd", "sched rand 4 30 0 0"])]
+            V.Case("disc-ref", ["refcnt 2 rd dd", "sched rand 4 30 0 0"]),
+            V.Case("disc-mutextype", ["mutextype"])]
 
 
 SITE_MACRO = {  # params field -> macro the site goes through
@@ -77,6 +92,7 @@ def gen_params(ctx):
     exe = build_impl(ctx)
     res = V.run_batch(exe, _discovery_cases(), per_case_timeout=5.0)
     seen = {}
+    mtype = None
     for name, r in res.items():
         scen = name.split("-")[1]
         scen = {"ref": "refcnt"}.get(scen, scen)
@@ -84,6 +100,9 @@ def gen_params(ctx):
             w = ln.split()
             if len(w) >= 5 and w[0] == "E":
                 seen.setdefault((scen, w[2], w[3]), set()).add(w[4])
+            m = re.match(r"F mutextype init=(-?\d+) type=(-?\d+) normal=(-?\d+) default=(-?\d+)$", ln)
+            if m:
+                mtype = [int(x) for x in m.groups()]
     fields = []
     notes = []
     for field, scen, op, cell in SITES:
@@ -121,6 +140,14 @@ def gen_params(ctx):
     V.gen_config_header()
     flags = ["-std=gnu11", "-I" + V.REPO, "-I" + V.GEN_INC, "-DNDEBUG"]
     txt += "\n" + SL.gen_all(V.REPO, flags)
+    # (4) mutex.c: result mapping of every pthread call, and the pthread type muggle_mutex_init asks for (as
+    # the wrapped pthread_mutex_init saw it); anything unobserved is a value no obligation accepts
+    txt += "\n" + SL.gen_mutex(V.REPO, flags, os.path.join(V.BUILD, ID, "atomic_tie"))
+    mt = mtype or [-1, -1, -2, -3]
+    txt += ("\n(* muggle_mutex_init: its return value, the PTHREAD_MUTEX_* type of the mutex it created, and the\n"
+            "   values of PTHREAD_MUTEX_NORMAL / PTHREAD_MUTEX_DEFAULT on this platform *)\n"
+            "Definition code_mutex_init_rc : Z := %d.\nDefinition code_mutex_type : Z := %d.\n"
+            "Definition pthread_mutex_normal : Z := %d.\nDefinition pthread_mutex_default : Z := %d.\n" % tuple(mt))
     return txt
 
 
@@ -252,6 +279,41 @@ def _atomics_cases(rng, nsingle, iters, prefix="atomics"):
     return cases
 
 
+def _oncem_cases(rng, count, prefix):
+    """2..3 once-flags in flight: 3..5 threads, each calling 1..3 flags (a flag may come twice); every flag has
+    at least two callers, so that it has a late caller while its (slow) function runs and the completions of the
+    flags interleave"""
+    cases = []
+    for i in range(count):
+        nf = rng.choice([2, 2, 3])
+        n = rng.range(3, 5)
+        scripts = ["".join(str(rng.below(nf)) for _ in range(rng.range(1, 3))) for _ in range(n)]
+        for f in range(nf):
+            callers = [k for k, sc in enumerate(scripts) if str(f) in sc]
+            while len(callers) < 2:
+                k = rng.below(n)
+                if k not in callers:
+                    scripts[k] = (str(f) + scripts[k])[:3] if str(f) not in scripts[k][:2] else scripts[k]
+                    if str(f) in scripts[k]:
+                        callers.append(k)
+        cases.append(_mk("%s-%d" % (prefix, i), "oncem %d %s" % (nf, " ".join(scripts)),
+                         "rand %d %d 0 0" % (rng.below(1 << 30), rng.choice([20, 50, 50, 80]))))
+    return cases
+
+
+def _nest_cases(rng, per, prefix):
+    """the owner of the mutex locks it again inside its critical section (thread 0); the documented outcome for a
+    default pthread mutex is that this never returns: DEADLOCK once the contenders are blocked / have given up"""
+    cases = []
+    for kind in ("nest", "nesttry"):
+        for n in (2, 3):
+            for it in (1, 2):
+                for j in range(per):
+                    cases.append(_mk("%s-%s-%d-%d-%d" % (prefix, kind, n, it, j), "lock %s %d %d" % (kind, n, it),
+                                     "rand %d %d 0 0" % (rng.below(1 << 30), rng.choice([20, 50, 80]))))
+    return cases
+
+
 def generate(rng, tier):
     cases = []
     nseed = 25 if tier == "quick" else 400
@@ -276,6 +338,9 @@ def generate(rng, tier):
         scripts = _ref_scripts(rng, n, 3 if i % 3 else 8)
         cases.append(_mk("ref-%d" % i, "refcnt %d %s" % (init, " ".join(scripts)),
                          "rand %d %d 0 0" % (rng.below(1 << 30), rng.choice([20, 50, 80]))))
+    cases += _oncem_cases(rng, 160 if tier == "quick" else 4000, "oncem")
+    cases += _nest_cases(rng, 2 if tier == "quick" else 20, "nest")
+    cases += [V.Case("mutexreal-%d" % i, ["mutexreal 1"]) for i in range(2 if tier == "quick" else 6)]
     cases += _ref_boundary_cases(rng, 4 if tier == "quick" else 12, "refb")
     cases += _atomics_cases(rng, 60 if tier == "quick" else 1200, 3000 if tier == "quick" else 30000)
     return cases
@@ -296,6 +361,8 @@ def search(rng, diverging, tier):
         scripts = _ref_scripts(rng, n, 8 if i % 2 else 3)
         out.append(_mk("search-ref-%d" % i, "refcnt %d %s" % (rng.range(1, 3), " ".join(scripts)),
                        "rand %d %d 0 0" % (rng.below(1 << 30), rng.choice([10, 50, 80]))))
+    out += _oncem_cases(rng, 1500, "search-oncem")
+    out += _nest_cases(rng, 6, "search-nest")
     out += _ref_boundary_cases(rng, 10, "search-refb")
     out += _atomics_cases(rng, 400, 5000, "search-atomics")
     return out
@@ -318,7 +385,7 @@ def model_search(ctx):
             v = MO.get(AT.effective_order(_TIE, SITE_MACRO[field], inv.get(v, "none")), "MoNone")
         vals.append(v)
     cases = []
-    for i, scen in enumerate(["lock spin 2 2", "lock sync 2 2", "once 2", "lock spin 3 1", "lock sync 3 1", "once 3", "once 2 2"]):
+    for i, scen in enumerate(["lock spin 2 2", "lock sync 2 2", "once 2", "lock spin 3 1", "lock sync 3 1", "once 3", "once 2 2", "oncem 2 0 01 1"]):
         cases.append(V.Case("modelsearch-%d" % i, [scen, "params " + " ".join(vals), "explore %d 3000" % (ctx.seed + i)]))
     res = ctx.run_model(cases)
     for c in cases:
@@ -344,12 +411,16 @@ def model_cases(cases, impl_results):
 
 def monitor(case, lines):
     scen = case.lines[0].split()
+    if scen[0] == "lock" and scen[1] in ("nest", "nesttry"):
+        return _mon_nest(scen, lines)
+    if scen[0] == "mutexreal":
+        return _mon_mutexreal(scen, lines)
     for ln in lines:
         if ln.startswith("DEADLOCK") or ln.startswith("LIVELOCK"):
             return "scheduler reported %s" % ln
     if scen[0] == "lock":
         return _mon_lock(scen, lines)
-    if scen[0] == "once":
+    if scen[0] in ("once", "oncem"):
         return _mon_once(scen, lines)
     if scen[0] == "refcnt":
         return _mon_ref(scen, lines)
@@ -440,27 +511,90 @@ def _mon_lock(scen, lines):
     return None
 
 
+def _mon_nest(scen, lines):
+    """mutex whose owner (thread 0) locks it again inside the critical section.  Whatever the nested lock does,
+    nobody else may get in while thread 0 is inside; a DEADLOCK is the documented outcome exactly when thread 0
+    is parked in the nested lock (default pthread mutex) and everybody else is blocked on the mutex or done."""
+    inside, nested, dead = None, None, None
+    exits = 0
+    for ln in lines:
+        w = ln.split()
+        if ln.startswith("LIVELOCK"):
+            return "scheduler reported %s" % ln
+        if ln.startswith("DEADLOCK"):
+            dead = ln
+        elif w[0] == "R" and w[2] == "enter":
+            if inside is not None or len(w) > 3:
+                return ("two holders at once: thread %s entered the critical section while thread %s was inside%s" % (
+                    w[1], inside, " (its nested lock returned OK and its single unlock released the mutex)" if nested == "ok" and inside == "0" else ""))
+            inside = w[1]
+        elif w[0] == "R" and w[2] == "exit":
+            if inside != w[1]:
+                return "exit by thread %s while holder is %s" % (w[1], inside)
+            inside = None
+            exits += 1
+        elif w[0] == "R" and w[2] == "nested":
+            nested = w[3]
+    f = [ln for ln in lines if ln.startswith("F ")]
+    m = re.match(r"F counter=(\d+) overlaps=(\d+)", f[-1]) if f else None
+    if not m:
+        return "no summary line"
+    if int(m.group(2)) != 0:
+        return "harness saw %s overlapping critical sections" % m.group(2)
+    if int(m.group(1)) != exits:
+        return "lost update: counter=%s after %d critical sections" % (m.group(1), exits)
+    if dead:
+        if nested is None and inside == "0" and "T0:mutex" in dead.split():
+            return None         # the owner is parked in its own nested lock: what a default mutex does
+        return "scheduler reported %s" % dead
+    return None
+
+
+def _mon_mutexreal(scen, lines):
+    """real pthread run of muggle_mutex_*: a line that says something impossible for a mutex is a violation; an
+    'inconclusive' line (thread creation / timing) is a harness matter and never one"""
+    if not lines or lines[-1] != "F mutexreal":
+        return "real-pthread mutex run did not finish: %r" % (lines[-1:] or None)
+    for ln in lines:
+        if "inconclusive" in ln:
+            V.log("C04 mutexreal: %s (harness timing, not a verdict)" % ln)
+            continue
+        if ln == "M trylock held ACQUIRED":
+            return "muggle_mutex_trylock returned OK on a mutex another thread holds"
+        if "OK-WHILE-HELD" in ln:
+            return ("muggle_mutex_lock returned OK to the owner's nested call while the first level is held" if "nested" in ln
+                    else "muggle_mutex_lock returned OK while another thread holds the mutex")
+        if ln in ("M init failed", "M lock free err", "M trylock free refused") or ln.endswith("then err unlock ok") or ln.endswith("unlock err"):
+            return "muggle_mutex on a free mutex: %s" % ln[2:]
+    return None
+
+
 def _mon_once(scen, lines):
-    n = int(scen[1]) * (int(scen[2]) if len(scen) > 2 else 1)     # racers x calls per racer
-    begun = ended = 0
+    if scen[0] == "oncem":
+        nf, n = int(scen[1]), sum(len(sc) for sc in scen[2:])
+    else:
+        nf, n = 1, int(scen[1]) * (int(scen[2]) if len(scen) > 2 else 1)     # racers x calls per racer
+    begun, ended = [0] * nf, [0] * nf
     rets = 0
     for ln in lines:
         w = ln.split()
         if w[0] == "R":
             if w[2] == "func-begin":
-                begun += 1
+                begun[int(w[3])] += 1
             elif w[2] == "func-end":
-                ended += 1
+                ended[int(w[3])] += 1
             elif w[2] == "ret":
                 rets += 1
-                if ended != 1:
-                    return "call_once returned to thread %s before the function run completed" % w[1]
-                if w[3] != "done=1":
-                    return "caller %s returned without seeing the function's effect (%s)" % (w[1], w[3])
-    if begun != 1 or ended != 1:
-        return "function ran %d times (completed %d)" % (begun, ended)
+                f = int(w[3])
+                if ended[f] != 1:
+                    return "call_once on flag %d returned to thread %s before that flag's function run completed" % (f, w[1])
+                if w[4] != "done=1":
+                    return "caller %s returned from flag %d without seeing the function's effect (%s)" % (w[1], f, w[4])
+    for f in range(nf):
+        if begun[f] != 1 or ended[f] != 1:
+            return "function of flag %d ran %d times (completed %d)" % (f, begun[f], ended[f])
     if rets != n:
-        return "%d of %d callers returned" % (rets, n)
+        return "%d of %d calls returned" % (rets, n)
     return None
 
 
@@ -523,8 +657,12 @@ def nontrivial_key(case, lines):
         return hash(txt)
     if scen == "lock" and case.lines[0].split()[1] == "mutex" and txt.count("mlock") > 1:
         return hash(txt)
-    if scen == "once" and " 1 0\n" in txt + "\n" and "cass flag" in txt:
+    if scen in ("once", "oncem") and " 1 0\n" in txt + "\n" and "cass flag" in txt:
         return hash(txt)
+    if scen == "lock" and case.lines[0].split()[1] in ("nest", "nesttry"):
+        return hash(txt)
+    if scen == "mutexreal":
+        return hash(case.name)
     if scen == "refcnt" and (" -1" in txt or re.search(r"cass ref \w+ -?\d+ -?\d+ 0", txt)):
         return hash(txt)
     if scen == "atomics2" or (scen == "atomics" and re.search(r"A c[sw]:\S+ res=0 ", txt)):
@@ -536,6 +674,10 @@ def tally(dist, case, lines):
     scen = case.lines[0].split()
     k = scen[0] + ("-" + scen[1] if scen[0] in ("lock", "atomics") else "")
     dist[k] = dist.get(k, 0) + 1
+    if scen[0] == "lock" and scen[1] in ("nest", "nesttry") and any(ln.startswith("DEADLOCK") for ln in lines):
+        dist["nested_lock_deadlock_as_documented"] = dist.get("nested_lock_deadlock_as_documented", 0) + 1
+    if scen[0] == "mutexreal" and any("inconclusive" in ln for ln in lines):
+        dist["mutexreal_inconclusive"] = dist.get("mutexreal_inconclusive", 0) + 1
     if scen[0] == "once" and len(scen) > 2 and int(scen[2]) > 1:
         dist["once_repeated_calls"] = dist.get("once_repeated_calls", 0) + 1
     if scen[0] == "refcnt" and int(scen[1]) > 1000:
